@@ -358,6 +358,19 @@ func (g *Gen) one(t uint32, height uint32) ([]Cand, bool) {
 		return []Cand{g.cand(tx, kind, "any")}, true
 	case pick < 56 && g.Cfg.Votes: // vote / re-vote
 		var target common.Address
+		if len(g.Unreg) > 0 && g.R.Chance(1, 5) {
+			// a vote for a candidate that has unregistered must be refused
+			var us []int
+			for ui := range g.Unreg {
+				us = append(us, ui)
+			}
+			sort.Ints(us)
+			target = g.key(us[g.R.Intn(len(us))]).Addr
+			return []Cand{g.cand(g.B.Vote(k, target, exp), "vote-for-unregistered", "any")}, true
+		} else if g.R.Chance(1, 25) {
+			// ... and so must a vote for an account that never registered
+			return []Cand{g.cand(g.B.Vote(k, g.key(g.user()).Addr, exp), "vote-for-non-candidate", "any")}, true
+		}
 		if len(g.Cands) > 0 && g.R.Chance(2, 3) {
 			var cis []int
 			for ci := range g.Cands {
